@@ -13,6 +13,136 @@ import PdfVerif.Lemmas.PageTree
 namespace PdfVerif.Props.C04
 open PdfVerif PdfVerif.PageTree PdfVerif.Gen.PageTree PdfVerif.Gen.Utils
 
+/-! ## Order and inheritance (page trees of any shape and depth) -/
+
+/-- **Order.** If the object graph contains the page tree `t` (each node once, Kids = references to
+the children) and `catalog["Pages"]` refers to its root, then `depth_first_search` yields exactly
+the Page leaves of `t` in depth-first Kids order and ends without exception; the recursion budget
+"number of nodes of the tree" is never exhausted. -/
+theorem C04_order (g : Store) (t : PTree) (catalog : Dict) (fuel : Nat)
+    (hE : Embeds g t) (hroot : dget catalog "Pages" = some (.atom (.ref t.id)))
+    (hcat : ∀ k ∈ INHERITABLE_ATTRS, dget catalog k = none)
+    (hnd : t.ids.Nodup) (hf : t.ids.length ≤ fuel) :
+    (treeWalk g fuel catalog).err = none ∧
+    (treeWalk g fuel catalog).pages.map (·.id) = (specLeaves t []).map (·.1) := by
+  have h := treeWalk_tree g t catalog fuel hE hroot hcat hnd hf
+  refine ⟨h.err, ?_⟩
+  have := congrArg (List.map Prod.fst) h.pages
+  simpa [List.map_map, rawKey, specKey, Function.comp_def] using this
+
+/-- **Inheritance.** Under the same hypotheses, for every page and every inheritable attribute
+(the regenerated `INHERITABLE_ATTRS`), the overlaid dictionary handed to `PDFPage` holds the page's
+own value or else that of its nearest ancestor defining it — at any depth. -/
+theorem C04_inherit (g : Store) (t : PTree) (catalog : Dict) (fuel : Nat)
+    (hE : Embeds g t) (hroot : dget catalog "Pages" = some (.atom (.ref t.id)))
+    (hcat : ∀ k ∈ INHERITABLE_ATTRS, dget catalog k = none)
+    (hnd : t.ids.Nodup) (hf : t.ids.length ≤ fuel) :
+    (treeWalk g fuel catalog).pages.map (fun rp => (rp.id, INHERITABLE_ATTRS.map (dget rp.attrs))) =
+      (specLeaves t []).map (fun sp => (sp.1, INHERITABLE_ATTRS.map (inherited sp.2))) :=
+  (treeWalk_tree g t catalog fuel hE hroot hcat hnd hf).pages
+
+/-- **Pages.** Hence the `PDFPage` objects (Rotate reduced, boxes parsed/normalised/defaulted,
+Resources) built by `create_pages` are exactly those the specification builds from
+own-or-inherited attributes, in the same order, with the same exception (if a box is not
+numeric) at the same place. Needs all four attributes to be in `INHERITABLE_ATTRS`. -/
+theorem C04_pages (g : Store) (t : PTree) (catalog : Dict) (fuel : Nat)
+    (hE : Embeds g t) (hroot : dget catalog "Pages" = some (.atom (.ref t.id)))
+    (hcat : ∀ k ∈ INHERITABLE_ATTRS, dget catalog k = none)
+    (hnd : t.ids.Nodup) (hf : t.ids.length ≤ fuel) :
+    finish (pageOfRaw g) (treeWalk g fuel catalog).pages (treeWalk g fuel catalog).err = specPages g t := by
+  have h := treeWalk_tree g t catalog fuel hE hroot hcat hnd hf
+  rw [h.err]
+  exact finish_of_keys g _ _ none h.pages
+
+/-- `create_pages` itself (with its fallback scan) on a tree that has at least one page. -/
+theorem C04_create_pages (g : Store) (ids : List Nat) (t : PTree) (catalog : Dict) (fuel : Nat)
+    (hE : Embeds g t) (hroot : dget catalog "Pages" = some (.atom (.ref t.id)))
+    (hcat : ∀ k ∈ INHERITABLE_ATTRS, dget catalog k = none)
+    (hnd : t.ids.Nodup) (hf : t.ids.length ≤ fuel) (hne : specLeaves t [] ≠ []) :
+    createPages g ids fuel catalog = specPages g t := by
+  have h := treeWalk_tree g t catalog fuel hE hroot hcat hnd hf
+  have hp : (treeWalk g fuel catalog).pages.isEmpty = false := by
+    have := congrArg List.length h.pages
+    simp only [List.length_map] at this
+    cases hl : (treeWalk g fuel catalog).pages with
+    | nil => rw [hl] at this; simp at this; exact absurd (List.eq_nil_of_length_eq_zero this.symm) hne
+    | cons _ _ => rfl
+  unfold createPages
+  simp only [hp, Bool.false_and, Bool.false_eq_true, if_false]
+  exact C04_pages g t catalog fuel hE hroot hcat hnd hf
+
+/-- The documents which the driver's `spec.pages` operation accepts (`docTree`) satisfy the
+hypotheses above: what the harness compares the implementation with is what the theorems are about. -/
+theorem C04_driver_domain (g : Store) (ids : List Nat) (catalog : Dict) (fuel : Nat) (t : PTree)
+    (h : docTree g fuel catalog = some t) (hf : t.ids.length ≤ fuel) (hne : specLeaves t [] ≠ []) :
+    createPages g ids fuel catalog = specPages g t := by
+  obtain ⟨hE, hroot, hcat, hnd⟩ := docTree_sound g fuel catalog t h
+  exact C04_create_pages g ids t catalog fuel hE hroot hcat hnd hf hne
+
+/-- With attributes in the catalog the walk inherits from it as from a page-tree node; the
+hypothesis `hcat` above is needed. -/
+theorem C04_catalog_attr_cex :
+    let g : Store := fun n => if n = 2 then some (.node [("Type", .atom (.name "Page"))]) else none
+    let catalog : Dict := [("Pages", .atom (.ref 2)), ("Rotate", .atom (.int 90))]
+    (createPages g [2] 2 catalog).1.map (·.rotate) = [90] ∧
+    (specPages g (.page 2 [("Type", .atom (.name "Page"))])).1.map (·.rotate) = [0] := by
+  decide
+
+/-- Non-vacuity: a three-level tree (grandparent defines Rotate and MediaBox, parent Resources,
+one page overrides Rotate) is contained in its graph, and both sides give these pages. -/
+def exStore : Store := fun n =>
+  if n = 2 then some (.node [("Type", .atom (.name "Pages")), ("Kids", .arr [.ref 5, .ref 3]),
+      ("Rotate", .atom (.int (-90))), ("MediaBox", .arr [.int 0, .int 0, .ref 9, .int 100])])
+  else if n = 3 then some (.node [("Type", .atom (.name "Pages")), ("Kids", .atom (.ref 8)),
+      ("Resources", .dict [("Marker", .int 7)])])
+  else if n = 8 then some (.val (.arr [.ref 4]))
+  else if n = 9 then some (.val (.atom (.int 200)))
+  else if n = 4 then some (.node [("Type", .atom (.name "Page"))])
+  else if n = 5 then some (.node [("type", .atom (.name "Page")), ("Rotate", .atom (.int 450))])
+  else none
+
+def exCatalog : Dict := [("Type", .atom (.name "Catalog")), ("Pages", .atom (.ref 2))]
+
+example : ∃ t, docTree exStore 7 exCatalog = some t ∧ t.ids = [2, 5, 3, 4] ∧
+    createPages exStore [2, 3, 4, 5, 8, 9] 7 exCatalog =
+      ([⟨5, 90, (0, 0, 200, 100), (0, 0, 200, 100), none⟩,
+        ⟨4, 270, (0, 0, 200, 100), (0, 0, 200, 100), some 7⟩], none) := by
+  refine ⟨_, rfl, ?_, ?_⟩ <;> decide
+
+/-! ## Cycles and repeated kids: termination, each node once -/
+
+/-- **Termination.** On every finite object graph (any Kids: cycles, self loops, repeated or shared
+nodes, dangling references) the walk with the visited set never exhausts the recursion budget
+`|nodes| + 1`, never visits a node twice, and yields every page at most once. -/
+theorem C04_terminates (g : Store) (nodes : List Nat) (hfin : ∀ n, g n ≠ none → n ∈ nodes)
+    (catalog : Dict) :
+    (treeWalk g (nodes.length + 1) catalog).err ≠ some .fuel ∧
+    (treeWalk g (nodes.length + 1) catalog).visited.Nodup ∧
+    ((treeWalk g (nodes.length + 1) catalog).pages.map (·.id)).Nodup := by
+  unfold treeWalk
+  split
+  · exact ⟨by simp, List.nodup_nil, by simp⟩
+  · rename_i a _
+    obtain ⟨new, h1, h2, h3⟩ := visit_inv g (nodes.length + 1) a catalog []
+    refine ⟨visit_fuel g nodes hfin _ a catalog [] ?_, ?_, ?_⟩
+    · simp only [unvisited]; exact Nat.lt_succ_of_le (List.length_filter_le _ _)
+    · rw [h1]; exact h2 List.nodup_nil
+    · have hn : new.Nodup := by simpa using h2 List.nodup_nil
+      exact h3.nodup ((List.reverse_perm new).nodup_iff.mpr hn)
+  · exact ⟨by simp, List.nodup_nil, by simp⟩
+
+/-- A two-node cycle with a repeated kid and a self loop: the walk ends, page 3 comes once. -/
+example :
+    let g : Store := fun n =>
+      if n = 2 then some (.node [("Type", .atom (.name "Pages")), ("Kids", .arr [.ref 3, .ref 2, .ref 3, .ref 4])])
+      else if n = 3 then some (.node [("Type", .atom (.name "Page"))])
+      else if n = 4 then some (.node [("Type", .atom (.name "Pages")), ("Kids", .arr [.ref 2, .ref 5])])
+      else if n = 5 then some (.node [("Type", .atom (.name "Page"))])
+      else none
+    ((treeWalk g 5 [("Pages", .atom (.ref 2))]).pages.map (·.id), (treeWalk g 5 [("Pages", .atom (.ref 2))]).err)
+      = ([3, 5], none) := by
+  decide
+
 /-! ## Rotate -/
 
 /-- For every integer `Rotate` the stored value lies in 0..359 and is congruent to it mod 360. -/
